@@ -10,6 +10,7 @@ package gohlslib
 import (
 	"bytes"
 	"net/http"
+	"strconv"
 	"time"
 
 	"github.com/bluenviron/gohlslib/v2/pkg/codecs"
@@ -72,6 +73,17 @@ func VerifH_C10_rendition() {
 	}
 	sc, vunits := verifRendStream("v", &fmp4.CodecH264{SPS: verifTestSPS, PPS: []byte{8}}, 90000, bv, vd, vo, true)
 	au, aunits := verifRendStream("a", acodec, rateA, ba, ad, ao, false)
+	// byte-range addressing of the init segment (EXT-X-MAP BYTERANGE n[@o]; without @o the range starts at byte 0)
+	mapRange := verifBool("maprange")
+	var mapLen, mapStart uint64
+	if mapRange {
+		mapLen = uint64(verifRangeI64("maplen", 1, 9999))
+		sc.pl.Map.ByteRangeLength = &mapLen
+		if verifBool("mapstart") {
+			mapStart = uint64(verifRangeI64("mapstartv", 0, 9999))
+			sc.pl.Map.ByteRangeStart = &mapStart
+		}
+	}
 	auri := "audio.m3u8"
 	acs := "opus"
 	if rateA == 44100 {
@@ -170,6 +182,15 @@ func VerifH_C10_rendition() {
 			verifAssert("C10", "no-negative-pts-delivered", g.pts >= 0)
 		}
 		verifAssert("C10", "nothing-invented-or-negative", gi == len(got))
+	}
+	for _, rq := range verifReqLog {
+		if containsStr(rq.url, "vinit.mp4") {
+			if mapRange {
+				verifAssert("C10", "init-requested-with-its-byte-range", rq.isSet && rq.rng == "bytes="+strconv.FormatUint(mapStart, 10)+"-"+strconv.FormatUint(mapStart+mapLen-1, 10))
+			} else {
+				verifAssert("C10", "init-requested-whole", !rq.isSet)
+			}
+		}
 	}
 	check("video", vunits, gotV, origin, 0)
 	check("audio", aunits, gotA, multiplyAndDivide(origin, int64(rateA), 90000), 1)
